@@ -145,6 +145,10 @@ class CountFeatureCompressionTransformer(BaseEstimator, TransformerMixin):
             self,
             ["components_", "component_scaling_"],
         )
+        # fit_transform performs no compression (and returns its input) in this case
+        if self.n_components >= X.shape[1]:
+            return X
+
         normed_data = normalize(X)
         rescaled_data = scipy.sparse.csr_matrix(normed_data)
         rescaled_data.data = np.power(normed_data.data, self.rescaling_power)
